@@ -267,3 +267,70 @@ def lookup_slices(R, ctx, rid):
     compare("search:found", rets, lambda n: g(n, "SLE") and g(n, "CLE"), "return Some(mid) iff start <= clock <= end")
     compare("search:go-right", names.get("left", []), lambda n: g(n, "SLE") and not g(n, "CLE"), "left := mid + 1 iff start <= clock and clock > end")
     compare("search:go-left", names.get("right", []), lambda n: not g(n, "SLE"), "right := mid - 1 iff start > clock")
+
+
+
+def content_split(R, ctx, rid):
+    """ItemContent::splice: each splittable kind is cut at the offset, left part kept, right part returned."""
+    Y = ctx.yrs
+    R.rule(rid, "R-PROV content split: in ItemContent::splice(offset) every splittable kind (Any, JSON, String, Deleted) keeps the part "
+                "before `offset` in place and returns the part from `offset` on, of the same kind: Any/JSON via split_at(v, offset) "
+                "(.0 kept, .1 returned), String via split_str(s, offset, encoding), Deleted(len) keeps `offset` and returns "
+                "len - offset — an item's clocks are implicit in its content's element count, so a part cut elsewhere re-labels "
+                "every element after the cut")
+    fn = Y.fn("yrs::block::ItemContent::splice")
+    v = FnView(fn)
+    OFF = None
+    for l in range(1, fn.argc() + 1):
+        if fn.local_name(l) == "offset":
+            OFF = l
+    if OFF is None:
+        raise AnchorLost("parameter offset of ItemContent::splice")
+
+    def is_off(t):
+        t = simp_deep(t)
+        while t[0] == "cast":
+            t = simp_deep(t[2])
+        return t[0] == "param" and t[1] == OFF
+    kept, ret = {}, {}
+    for i, j, st in fn.stmts():
+        d = st["dst"]
+        arms = [l.polarity for l in v.guards(i) if isinstance(l.polarity, str) and simp(l.term)[0] == "param" and simp(l.term)[1] == 1]
+        if not arms:
+            continue
+        t = simp_deep(v.terms.rvalue(st["rv"], 12))
+        if isinstance(d, dict) and d.get("l") == 1:
+            kept.setdefault(arms[0], []).append((t, st, d))
+        elif d == 0:
+            ret.setdefault(arms[0], []).append((t, st, d))
+    for arm in ("Any", "JSON", "String"):
+        ok = False
+        why = "arm not found"
+        if arm in kept and arm in ret:
+            kt, rt = kept[arm][0][0], ret[arm][0][0]
+            def comp(t, which):
+                for x in walk(t):
+                    if x[0] == "field" and x[1] == "tuple.%d" % which and x[2][0] == "call" and \
+                            re.search(r"(split_at|split_str)$", x[2][1]) and len(x[2][2]) >= 2 and is_off(x[2][2][1]) and \
+                            term_has_field(x[2][2][0], "ItemContent::%s.0" % arm):
+                        return True
+                return False
+            same = any(x[0] == "agg" and x[1].endswith("ItemContent::" + arm) for x in walk(kt)) and \
+                any(x[0] == "agg" and x[1].endswith("ItemContent::" + arm) for x in walk(rt))
+            ok = comp(kt, 0) and comp(rt, 1) and same
+            why = "kept = split(.., offset).0: %s; returned = split(.., offset).1: %s; same kind: %s" % (comp(kt, 0), comp(rt, 1), same)
+        R.ob(rid, fn, "arm:" + arm, ok, why)
+    # Deleted(len)
+    ok = False
+    why = "arm not found"
+    if "Deleted" in ret:
+        rt = ret["Deleted"][0][0]
+        subs = [x for x in walk(rt) if x[0] == "bin" and x[1] in ("Sub", "SubWithOverflow") and term_has_field(x[2], "ItemContent::Deleted.0") and is_off(x[3])]
+        stores = [(t, st) for arm, lst in kept.items() for (t, st, d) in lst if arm == "Deleted"]
+        # `*len = offset` is a store through the matched field, which shows as a write with projection Deleted.0
+        lenw = [st for i, j, st in fn.stmts() if isinstance(st["dst"], dict) and st["dst"].get("p") == ["*"] and st["dst"].get("l") != 1
+                and "u32" in str(fn.local_ty(st["dst"]["l"])) and any(l.polarity == "Deleted" for l in v.guards(i))]
+        kept_ok = any(is_off(v.terms.rvalue(st["rv"], 8)) for st in lenw)
+        ok = bool(subs) and kept_ok
+        why = "returns Deleted(len - offset): %s; keeps offset: %s" % (bool(subs), kept_ok)
+    R.ob(rid, fn, "arm:Deleted", ok, why)
